@@ -6,7 +6,10 @@ From Coq Require Import Lia.
 
 (* ---------- ghost state: the client's live blocks ---------- *)
 Definition slot (t : tw) : blk := (tw_res t, tw_size t).
-Definition slots (b : bump) : list blk := map slot (tws b).
+(* what a pending reservation keeps off limits: the slot and the padding above it, up to where
+   the finger stood before (or up to the top of the chunk obtained for the slot) *)
+Definition region (t : tw) : blk := (tw_res t, N.max (tw_size t) (tw_top t - tw_res t)).
+Definition slots (b : bump) : list blk := map region (tws b).
 Definition gstate := (bump * list blk)%type.
 Definition blocks (g : gstate) : list blk := snd g ++ slots (fst g).
 
@@ -197,6 +200,33 @@ Proof.
     intros x _ _ [X1 _]. lia.
 Qed.
 
+(* the same, keeping the whole stretch the finger moved over off limits *)
+Lemma alloc_fast_region k b rest l p b' :
+  cfg_ok k -> ChunksInv k (chunks b) -> BlocksInv k (chunks b) rest -> pow2 (l_align l) ->
+  fast k b l = Some (p, b') ->
+  ChunksInv k (chunks b') /\
+  BlocksInv k (chunks b') ((p, N.max (l_size l) (cur_ptr k b - p)) :: rest) /\
+  p + l_size l <= cur_ptr k b.
+Proof.
+  intros K HC HB Pa F.
+  destruct (fast_facts k b l p b' K HC Pa F) as (_ & Am & P0 & _ & _ & Hm).
+  unfold cur_ptr. destruct (chunks b) as [|c r] eqn:E.
+  - destruct Hm as (-> & -> & Z). rewrite Z.
+    replace (N.max 0 (k_eaddr k - k_eaddr k)) with 0 by lia.
+    split; [exact HC|]. split; [|lia].
+    destruct HB as [HP HD]. split.
+    + constructor; [split; [exact P0|split; [exact Am|left; reflexivity]] | exact HP].
+    + cbn [pairwise]. split; [|exact HD].
+      apply Forall_forall. intros x _. left. reflexivity.
+  - destruct Hm as (-> & M1 & M2).
+    assert (HC0 := HC). destruct HC0 as (Hok & _). inversion Hok as [|? ? Hc _]; subst.
+    destruct Hc as (_ & _ & _ & _ & C5 & _).
+    replace (N.max (l_size l) (c_ptr c - p)) with (c_ptr c - p) by lia.
+    assert (MD : ChunksInv k (with_ptr c p :: r) /\ BlocksInv k (with_ptr c p :: r) ((p, c_ptr c - p) :: rest)).
+    { apply move_down; try assumption; try lia. intros x _ _ [X1 _]. lia. }
+    destruct MD as [MD1 MD2]. split; [exact MD1|]. split; [exact MD2 | exact M2].
+Qed.
+
 Ltac conj := repeat match goal with |- _ /\ _ => split end.
 Ltac okres := intros ? Hq; inversion Hq; subst; conj; assumption.
 Ltac nores := intros ? Hq; discriminate Hq.
@@ -237,6 +267,55 @@ Proof.
         destruct (fast_facts k b1 l p b2 K C1 Pa F2) as (X1 & X2 & X3 & X4 & X5 & _).
         conj; try assumption. okres.
       * conj; try assumption; try reflexivity. nores.
+Qed.
+
+(* the same for the whole region a reservation keeps: up to the old finger, or, when a chunk
+   had to be obtained, up to the top of that chunk *)
+Definition top_after (k : cfg) (b b' : bump) : N :=
+  if cur_foot k b' =? cur_foot k b then cur_ptr k b else cur_foot k b'.
+
+Lemma cur_foot_fast k b l p b' : fast k b l = Some (p, b') -> cur_foot k b' = cur_foot k b.
+Proof.
+  unfold fast. destruct (fast_ptr _ _ _ _); [|discriminate]. intros H; inversion H; subst.
+  unfold cur_foot, set_ptr. destruct (chunks b) as [|c r] eqn:E; [rewrite E; reflexivity|]. reflexivity.
+Qed.
+
+Lemma try_alloc_region_inv k A b rest l :
+  cfg_ok k -> ChunksInv k (chunks b) -> BlocksInv k (chunks b) rest -> A_ok k A b -> pow2 (l_align l) ->
+  let r := try_alloc k A b l in
+  forall p, o_res (snd r) = ROk p ->
+    BlocksInv k (chunks (fst r)) ((p, N.max (l_size l) (top_after k b (fst r) - p)) :: rest) /\
+    p + l_size l <= top_after k b (fst r).
+Proof.
+  intros K HC HB HA Pa. unfold try_alloc.
+  destruct (fast k b l) as [[q b1]|] eqn:F; cbn [fst snd o_res].
+  - intros p Hp. inversion Hp; subst q.
+    unfold top_after. rewrite (cur_foot_fast k b l p b1 F), N.eqb_refl.
+    destruct (alloc_fast_region k b rest l p b1 K HC HB Pa F) as (_ & B1 & L1). split; assumption.
+  - unfold slow. destruct (A b (ForLayout l)) as [a reqs] eqn:EA.
+    destruct a as [|w|g data]; cbn [fst snd o_res]; try (intros p Hp; discriminate Hp).
+    assert (Hf : fresh_chunk_ok k b g data) by (apply (HA (ForLayout l)); rewrite EA; reflexivity).
+    destruct (new_chunk_inv k b g data K HC Hf) as (C1 & Ptop & Efoot).
+    set (nc := new_chunk k b g data) in *.
+    set (b1 := push_chunk b nc).
+    assert (HB1 : BlocksInv k (chunks b1) rest) by (apply BlocksInv_push; exact HB).
+    destruct (fast k b1 l) as [[q b2]|] eqn:F2; cbn [fst snd o_res]; [|intros p Hp; discriminate Hp].
+    intros p Hp. inversion Hp; subst q.
+    destruct (alloc_fast_region k b1 rest l p b2 K C1 HB1 Pa F2) as (_ & B2 & L2).
+    assert (Ecur : cur_ptr k b1 = c_foot nc) by (unfold cur_ptr, b1; cbn [push_chunk chunks]; exact Ptop).
+    assert (Efb2 : cur_foot k b2 = c_foot nc).
+    { rewrite (cur_foot_fast k b1 l p b2 F2). reflexivity. }
+    assert (Ne : c_foot nc <> cur_foot k b).
+    { destruct Hf as (Hsafe & D0 & Da & Dw & Dd & Ds).
+      unfold req_safe in Hsafe. rewrite !andb_true_iff in Hsafe. destruct Hsafe as [[[_ L2'] _] _].
+      apply N.leb_le in L2'. pose proof (ko_f k K) as Fp. rewrite Efoot.
+      unfold cur_foot. destruct (chunks b) as [|c0 r0] eqn:EC.
+      - unfold rng_disj in Ds. lia.
+      - inversion Dd as [|? ? D1 _]; subst. destruct HC as (Hok & _).
+        inversion Hok as [|? ? Hc0 _]; subst. destruct Hc0 as (_ & _ & _ & X4 & X5 & _).
+        unfold rng_disj, c_end in D1. lia. }
+    unfold top_after. rewrite Efb2. apply N.eqb_neq in Ne. rewrite Ne.
+    rewrite Ecur in B2, L2. split; assumption.
 Qed.
 
 (* ---------- list bookkeeping ---------- *)
@@ -334,6 +413,22 @@ Proof.
       * apply rup_mod. exact Nm.
       * intros x Hx NZx Bx. destruct (Hab x Hx NZx Bx) as [A1 A2].
         apply rup_least; [exact Nm | apply mod0_divide; assumption | exact A1].
+Qed.
+
+(* shrinking the first block of the list in place *)
+Lemma BlocksInv_head_inside k cs X X' rest :
+  BlocksInv k cs (X :: rest) -> fst X' = fst X -> snd X' <= snd X -> BlocksInv k cs (X' :: rest).
+Proof.
+  intros [HP HD] E1 E2. inversion HP as [|? ? Hy Hr]; subst. cbn [pairwise] in HD. destruct HD as [Dy Dr].
+  split.
+  - constructor; [|exact Hr].
+    destruct Hy as (P0 & Al & HX). rewrite <- E1 in P0, Al.
+    split; [exact P0|]. split; [exact Al|].
+    destruct (N.eq_dec (snd X') 0) as [Z|NZ]; [left; exact Z|]. right.
+    destruct HX as [Z|(c & Hc & Hb)]; [lia|].
+    exists c. split; [exact Hc|]. unfold blk_in in *. lia.
+  - cbn [pairwise]. split; [|exact Dr].
+    eapply Forall_impl; [|exact Dy]. intros x. apply bdisj_inside; lia.
 Qed.
 
 (* ---------- shrink ---------- *)
@@ -566,7 +661,7 @@ Definition no_rewind (o : op) : Prop := match o with OTwEnd false => False | _ =
 Lemma in_live_blocks (g : gstate) X : In X (snd g) -> In X (blocks g).
 Proof. intros H. unfold blocks. apply in_or_app. left. exact H. Qed.
 
-Lemma slots_set_tws b ts : slots (set_tws b ts) = map slot ts.
+Lemma slots_set_tws b ts : slots (set_tws b ts) = map region ts.
 Proof. reflexivity. Qed.
 
 Lemma grow_zeroed_res k A b p old new :
@@ -684,16 +779,28 @@ Proof.
   - (* tw_begin *)
     pose proof (lay_ok_pow2 l Hwf) as Pa. unfold tw_begin.
     destruct (try_alloc_inv k A b (live ++ slots b) l K HC HB HA Pa) as (C & B & T & _ & _).
+    pose proof (try_alloc_region_inv k A b (live ++ slots b) l K HC HB HA Pa) as RG. cbv zeta in RG.
     destruct (o_res (snd (try_alloc k A b l))) eqn:ER; cbn [fst snd res_blocks] in *;
       try (split; [exact C|]; unfold slots in *; rewrite T; exact B).
     unfold push_tw, slots. cbn [chunks tws map]. split; [exact C|].
-    rewrite T. unfold slots in B.
-    apply BlocksInv_move_in. exact B.
-  - (* tw_end, initialiser succeeded *)
+    rewrite T. unfold slots in RG.
+    apply BlocksInv_move_in. unfold region. cbn [tw_res tw_size tw_top].
+    destruct (RG p eq_refl) as [RB _]. exact RB.
+  - (* tw_end, initialiser succeeded: the slot, which lies inside its region, becomes the client's *)
     destruct ok; [|contradiction]. unfold tw_end.
     destruct (tws b) as [|t ts] eqn:ET; [contradiction|]. cbn [fst snd o_res set_tws chunks].
     split; [exact HC|]. unfold slots in *. cbn [tws]. rewrite ET in HB. cbn [map] in HB.
-    cbn [app]. apply BlocksInv_move_in. exact HB.
+    cbn [app]. apply BlocksInv_move_in in HB.
+    destruct HB as [HP HD]. inversion HP as [|? ? Hy Hr]; subst. cbn [pairwise] in HD. destruct HD as [Dy Dr].
+    split.
+    + constructor; [|exact Hr].
+      destruct Hy as (P0 & Al & HX). unfold slot, region in *. cbn [fst snd] in *.
+      split; [exact P0|]. split; [exact Al|].
+      destruct (N.eq_dec (tw_size t) 0) as [Z|NZ]; [left; exact Z|]. right.
+      destruct HX as [Z|(c & Hc & Hb)]; [lia|].
+      exists c. split; [exact Hc|]. unfold blk_in in *. cbn [fst snd] in *. lia.
+    + cbn [pairwise]. split; [|exact Dr].
+      eapply Forall_impl; [|exact Dy]. intros x. apply bdisj_inside; unfold slot, region; cbn [fst snd]; lia.
   - (* drop *)
     cbn [drop_arena fst chunks slots tws map app].
     split; [split; [constructor|split; [constructor|exact I]] | split; [constructor | exact I]].
